@@ -63,6 +63,16 @@ CHECKS = {
              'cancellable heartbeat signals that end a blocking resume. Each run uses one scenario class so that defects of one class cannot leak '
              'into another; known findings are keyed by (class, failure kind).',
         ref='DESIGN.md §4 C10'),
+    'C11': dict(
+        technique='runtime monitoring: post-condition monitors over teardown/restart histories (process table, independent PTRACE_SEIZE inspection of released processes, /proc/pid/mem vs ELF, stop-sequence and exit-status comparison with the native run)',
+        text='Histories ending in drop / quit / detach / restart at every kind of stop (not started, breakpoint, after a step, with a watchpoint, '
+             'signal stop, exited) for launched and for attached (externally started, ASLR on) single- and 8-thread programs: no process may be '
+             'left for launched programs; a released attached process must be alive, untraced, not stopped, without enabled debug-register slots, '
+             'with text equal to the ELF files, and must finish with the native output and exit status; after restart breakpoint numbers and '
+             'addresses are unchanged and the stop sequence equals that of a fresh run; reported exit codes (0, 1, 2, 101 by panic, 255) equal the '
+             'native status. Held on the histories explored (after the fix commit for the not-started teardown).',
+        note='Trusted: /proc, an independent ptrace seize (reftrace inspect) for the debug registers of released processes, the native run.',
+        ref='DESIGN.md §4 C11'),
     'C06': dict(
         technique='runtime monitoring: structural comparison of the debugger\'s Value trees with the debuggee\'s own canonical self-description (reference model = safe Rust in the program)',
         text='Generated programs hold ~40 variables each (locals, statics, thread-locals, arguments) from a recursive type grammar with boundary '
